@@ -18,6 +18,32 @@ if TYPE_CHECKING:
     from quansino.type_hints import IntegerArray, Momenta, Positions, Stress
 
 
+def detach_results(calc: Any) -> dict[str, Any]:
+    """
+    Give the calculator a results dictionary whose arrays are not shared with the
+    calculator's internal buffers, and return that dictionary. Some calculators (e.g.
+    ASE's EMT) keep writing into the arrays they have returned, so results remembered
+    by reference would silently turn into those of a later configuration.
+
+    Parameters
+    ----------
+    calc : Any
+        The calculator attached to the atoms.
+
+    Returns
+    -------
+    dict[str, Any]
+        The calculator's results, safe to remember.
+    """
+    results = {
+        key: value.copy() if isinstance(value, np.ndarray) else value
+        for key, value in calc.results.items()
+    }
+    calc.results = results
+
+    return results
+
+
 class Context:
     """
     Abstract base class for Monte Carlo contexts. Contexts define the interface between
@@ -61,7 +87,7 @@ class Context:
         This method can be overridden by subclasses to save specific attributes.
         """
         try:
-            self.last_results = self.atoms.calc.results  # type: ignore[try-attr]
+            self.last_results = detach_results(self.atoms.calc)
         except AttributeError:
             warn(
                 "Atoms object does not have calculator attached, or does not support the `results` attribute",
